@@ -64,7 +64,9 @@ def ensure_built(clean=False):
         rc, out, err, _ = _run(['/venv/bin/python', os.path.join(VERIF, 'harness', 'genparams.py')], timeout=120)
         if rc != 0:
             return False, 'genparams failed:\n' + out + err
-        if clean or not os.path.exists(os.path.join(COQ, 'Makefile')):
+        mk = os.path.join(COQ, 'Makefile')
+        stale = (not os.path.exists(mk)) or os.path.getmtime(mk) < os.path.getmtime(os.path.join(COQ, '_CoqProject'))
+        if clean or stale:
             rc, out, err, _ = _run(['coq_makefile', '-f', '_CoqProject', '-o', 'Makefile'], cwd=COQ, timeout=120)
             if rc != 0:
                 return False, 'coq_makefile failed:\n' + out + err
@@ -194,6 +196,24 @@ Set Printing Depth 100000000.
 '''
 
 _RES = re.compile(r'^\s*= "(.*)"%string\s*$')
+_RESL = re.compile(r'^\s*= \[(.*)\](%list)?\s*$')
+_STR = re.compile(r'"([^"]*)"%string')
+
+
+def parse_result(line):
+    """a printed `string` -> str; a printed `list string` -> list of str; else None"""
+    m = _RES.match(line)
+    if m:
+        return m.group(1)
+    m = _RESL.match(line)
+    if m:
+        body = m.group(1)
+        if '%string' in body:
+            return _STR.findall(body)
+        if body.strip() == '':
+            return []
+        return [int(x) for x in re.findall(r'(\d+)(?:%N)?', body)]
+    return None
 
 
 def run_model(exprs, imports, workdir, tag='cases', shard_bytes=120000, shard_max=400, timeout=1500):
@@ -220,7 +240,8 @@ def run_model(exprs, imports, workdir, tag='cases', shard_bytes=120000, shard_ma
             f.write(HEADER % imports)
             for _, e in shard:
                 f.write('Eval vm_compute in (%s).\n' % e)
-        p = subprocess.Popen(['timeout', str(timeout), 'coqc', '-Q', COQ, 'HP', '-o', path + 'o', path],
+        p = subprocess.Popen(['sh', '-c', 'ulimit -s 4000000 2>/dev/null; exec timeout %d coqc -Q %s HP -o %s %s'
+                              % (timeout, COQ, path + 'o', path)],
                              stdout=subprocess.PIPE, stderr=subprocess.PIPE, text=True)
         return (p, shard, path)
 
@@ -236,9 +257,9 @@ def run_model(exprs, imports, workdir, tag='cases', shard_bytes=120000, shard_ma
             continue
         vals = []
         for line in out.split('\n'):
-            m = _RES.match(line)
-            if m:
-                vals.append(m.group(1))
+            v = parse_result(line)
+            if v is not None:
+                vals.append(v)
         if len(vals) != len(shard):
             errors.append('%s: expected %d results, got %d' % (path, len(shard), len(vals)))
             continue
